@@ -46,7 +46,7 @@ ASSUMPTIONS = [
     "the limiter's own debug switch is left off; MIN_INTER_WRITE_GAP, DUTY_CYCLE_DURATION, MAX_DUTY_CYCLE_RATE and MAX_TRANSMIT_RATE_TOKENS are the shipped constants",
     "tolerance 1 us on times, 1 bit on sums",
 ]
-REQUIRED = {"serial.scenarios": 8, "serial.writes": 400, "serial.waited_for_bucket": 1, "serial.windows": 400, "mqtt.scenarios": 4, "mqtt.publishes": 200, "mqtt.drops": 1}
+REQUIRED = {"serial.scenarios_with_sync_cycles": 4, "serial.scenarios": 8, "serial.writes": 400, "serial.waited_for_bucket": 1, "serial.windows": 400, "mqtt.scenarios": 4, "mqtt.scenarios_with_status_flaps": 2, "mqtt.status_flaps": 10, "mqtt.publishes": 200, "mqtt.drops": 1}
 
 RATE, BUCKET, GAP = 38400 * 0.01, 38400 * 0.01 * 60, 0.05
 TOKENS, TOKEN_RATE = 80, 80 / 60
@@ -252,10 +252,33 @@ async def serial_scenario(loop: vloop.VirtualLoop, ctx, name: str, trial: int) -
     led = Ledger(loop)
     uid = [(trial * 20000 + ctx.shard * 7) % 200000]
     budget = rng.choice((60.0, 300.0, 1800.0) if ctx.quick else (60.0, 600.0, 3600.0, 4 * 3600.0))
+    # controllers announcing their sync cycles (the transport holds writes back around each sync): one to
+    # three controllers, cycles of a few seconds so that bursts meet many of them, offsets that make the
+    # hold-back windows overlap
+    syncer = None
+    if trial % 2 == 1 or rng.random() < 0.3:
+        ctls = [f"01:1{rng.randrange(10000, 99999)}" for _ in range(rng.choice((1, 2, 3)))]
+        period = rng.choice((1.7, 3.0, 6.1, 18.5))
+        offs = [k * rng.choice((0.03, 0.085, 0.11, 0.4)) for k in range(len(ctls))]
+
+        async def sync_traffic() -> None:
+            t0 = loop.time()
+            n = 0
+            while loop.time() - t0 < min(budget * 2, 900.0):
+                for c, off in zip(ctls, offs):
+                    loop.call_later(off, air.inject, f" I --- {c} --:------ {c} 1F09 003 FF{int(period * 10):04X}", 0.0, "045", False)
+                    n += 1
+                await asyncio.sleep(period)
+            ctx.count("serial.sync_announcements", n)
+
+        syncer = asyncio.ensure_future(sync_traffic())
+        ctx.count("serial.scenarios_with_sync_cycles")
     await pattern(loop, rng, name, led, tr, uid, budget)
     if rng.random() < 0.5:  # a second pattern on the same (now possibly indebted) bucket
         await pattern(loop, rng, rng.choice(PATTERNS), led, tr, uid, budget / 2)
     await asyncio.sleep(5.0)
+    if syncer is not None:
+        syncer.cancel()
     judge_serial(ctx, name, led, list(port.writes))
     ctx.ev()
     ctx.count("serial.scenarios")
@@ -327,10 +350,32 @@ async def mqtt_scenario(loop: vloop.VirtualLoop, ctx, name: str, trial: int) -> 
     led = Ledger(loop)
     uid = [(trial * 20000 + ctx.shard * 7) % 200000]
     budget = rng.choice((60.0, 300.0, 900.0))
+    # the gateway's status topic flaps (the ESP restarts, the broker re-publishes the retained 'online'):
+    # the allowance is the transport's, whatever the topic says
+    flapper = None
+    if trial % 2 == 1 or rng.random() < 0.3:
+        every = rng.choice((0.5, 7.0, 40.0))
+        repeat_only = rng.random() < 0.3  # 'online' again without an 'offline' in between
+
+        async def flap() -> None:
+            n = 0
+            while n < 400:
+                await asyncio.sleep(every)
+                if not repeat_only:
+                    client.deliver("RAMSES/GATEWAY/18:017804", b"offline")
+                    await asyncio.sleep(rng.choice((0.0, 0.2, 2.0)))
+                client.deliver("RAMSES/GATEWAY/18:017804", b"online")
+                n += 1
+                ctx.count("mqtt.status_flaps")
+
+        flapper = asyncio.ensure_future(flap())
+        ctx.count("mqtt.scenarios_with_status_flaps")
     await pattern(loop, rng, name, led, tr, uid, budget)
     if rng.random() < 0.5:
         await pattern(loop, rng, rng.choice(PATTERNS), led, tr, uid, budget / 2)
     await asyncio.sleep(3.0)
+    if flapper is not None:
+        flapper.cancel()
     judge_mqtt(ctx, name, led, list(client.published))
     ctx.ev()
     ctx.count("mqtt.scenarios")
